@@ -137,4 +137,44 @@ mod verif_c01_wit {
             }
         }
     }
+
+    /// C05: "no path" exactly when the destination is unreachable -- on worlds with dead ends, a one-way bridge and an isolated vertex, for both algorithms and both
+    /// directions; a destination-less search labels exactly the reachable vertices
+    #[test]
+    fn c05_wit_no_path_exactly_when_unreachable() {
+        // 0 -> 1 -> 2 -> 0 (a cycle), 2 -> 3 (one-way bridge), 3 -> 4, 5 isolated, 6 -> 0 (only leaves)
+        let edges = [(0, 1, 1.0), (1, 2, 1.0), (2, 0, 1.0), (2, 3, 5.0), (3, 4, 1.0), (6, 0, 2.0)];
+        let n = 7usize;
+        let si = W::instance(W::graph(n, &edges), Arc::new(NoRestriction {}), TerminationModel::IterationsLimit { limit: 1000 });
+        // reachability by an independent closure
+        let mut reach = vec![vec![false; n]; n];
+        for v in 0..n { reach[v][v] = true; }
+        for _ in 0..n { for (a, b, _) in edges.iter() { for s in 0..n { if reach[s][*a] { reach[s][*b] = true; } } } }
+        let q = serde_json::json!({});
+        for alg in [SearchAlgorithm::Dijkstra, SearchAlgorithm::AStarAlgorithm { weight_factor: None }] {
+            for s in 0..n { for t in 0..n { if s != t {
+                let fwd = alg.run_vertex_oriented(VertexId(s), Some(VertexId(t)), &q, &Direction::Forward, &si);
+                match fwd {
+                    Ok(r) => { assert!(reach[s][t], "{} -> {}: a route was returned although {} is not reachable", s, t, t); check_walk(&si, &r.routes[0], VertexId(s), VertexId(t)); }
+                    Err(SearchError::NoPathExistsBetweenVertices(a, b)) => { assert!(!reach[s][t], "{} -> {}: 'no path' although a path exists", s, t); assert_eq!((a, b), (VertexId(s), VertexId(t))); }
+                    Err(e) => panic!("{} -> {}: neither a route nor 'no path': {:?}", s, t, e),
+                }
+                // reverse direction: from t backwards to s
+                let rev = alg.run_vertex_oriented(VertexId(t), Some(VertexId(s)), &q, &Direction::Reverse, &si);
+                match rev {
+                    Ok(_) => assert!(reach[s][t], "reverse {} <- {}: a route was returned although there is no path", t, s),
+                    Err(SearchError::NoPathExistsBetweenVertices(_, _)) => assert!(!reach[s][t], "reverse {} <- {}: 'no path' although a path exists", t, s),
+                    Err(e) => panic!("reverse {} <- {}: neither a route nor 'no path': {:?}", t, s, e),
+                }
+            } } }
+            // without a destination: the tree labels exactly the vertices reachable from the origin (the origin itself has no entry)
+            for s in 0..n {
+                let r = alg.run_vertex_oriented(VertexId(s), None, &q, &Direction::Forward, &si).unwrap();
+                let mut labelled: Vec<usize> = r.trees[0].keys().map(|v| v.0).collect();
+                labelled.sort();
+                let want: Vec<usize> = (0..n).filter(|t| *t != s && reach[s][*t]).collect();
+                assert_eq!(labelled, want, "tree search from {}: the tree holds exactly the reachable vertices", s);
+            }
+        }
+    }
 }
